@@ -33,6 +33,9 @@ impl Block {
         use crate::codecs::{aac, bzip2, gzip, lzma, name_tokenizer, rans_4x8, rans_nx16};
 
         let (compression_method, buf) = match encoder {
+            // § 8 "Block structure" (2024-09-04): "Blocks with a raw (uncompressed) size of zero
+            // are treated as empty, irrespective of their `method` byte."
+            _ if src.is_empty() => (CompressionMethod::None, Vec::new()),
             None => (CompressionMethod::None, src.to_vec()),
             Some(Encoder::Gzip(compression_level)) => (
                 CompressionMethod::Gzip,
